@@ -1,10 +1,10 @@
 (* C14 - the property theorems, assembled clause by clause from the per-generator files, with non-vacuity
    examples.  Admissible parameters = those the generated guards accept (`g_rejects p = false`, see all_rejects). *)
-From Coq Require Import ZArith List Bool Lia Reals String.
+From Coq Require Import ZArith List Bool Lia Reals Lra String.
 Import ListNotations.
 Require Import MV.Lib.Base MV.C14.Model MV.C14.Gen MV.C14.ProofsLib.
 Require Import MV.C14.ProofsGrid MV.C14.ProofsTri MV.C14.ProofsTorus MV.C14.ProofsSphere MV.C14.ProofsCyl
-               MV.C14.ProofsRing MV.C14.ProofsPoly MV.C14.ProofsTables MV.C14.ProofsCoords MV.C14.ProofsBisect.
+               MV.C14.ProofsRing MV.C14.ProofsPoly MV.C14.ProofsTables MV.C14.ProofsCoords MV.C14.ProofsBisect MV.C14.ProofsMore.
 Open Scope Z_scope.
 
 Ltac conjs := repeat match goal with |- _ /\ _ => split end.
@@ -346,6 +346,96 @@ Lemma runtime_checker_sound V F :
   (is_disk (topo_of V F) = true -> disk_like' V F) /\ (is_annulus (topo_of V F) = true -> annulus_like V F).
 Proof. conjs; [apply is_sphere_sound | apply is_torus_sound | apply is_disk_sound | apply is_annulus_sound]. Qed.
 
+(* ---------------------------------------------------------------- 8. round 7: clauses that were only tested before *)
+(* unit_triangle: the number of faces for every admissible pair of resolutions, equal or not; all faces are triangles *)
+Lemma tri_counts_all :
+  (forall nu nv u, unit_triangle_rejects nu nv u = false ->
+     zlen (unit_triangle_faces nu nv u) = 2 * roff nu nv - 2 * (nv - 1) - (Z.min nv nu - 1) - 2 /\
+     Forall (fun f : list Z => zlen f = 3) (unit_triangle_faces nu nv u)) /\
+  (forall nu nv u, unit_triangle_rejects nu nv u = false -> nv <= nu ->
+     zlen (unit_triangle_faces nu nv u) = (nv - 1) * (nv - 1)).
+Proof.
+  split.
+  - intros nu nv u H. acc. split; [apply tri_nfaces_closed; lia | apply tri_all_triangles; lia].
+  - intros nu nv u H Hle. acc. apply tri_nfaces_full. lia.
+Qed.
+
+(* flat_ring: rim vertex i+1 is at the angle i*ang on the unit circle, ang = (2 pi - clamped defect)/N; every triangle
+   (0, i+1, i+2) has its apex at the origin with apex angle ang (counter-clockwise); N of them leave the requested defect *)
+Lemma flat_ring_apex : forall N (d : R) k, flat_ring_rejects N k = false ->
+  (forall i, 0 <= i <= N * k ->
+     nth (Z.to_nat (i + 1)) (flat_ring_coords Rops N d k) (0, 0, 0)%R = (cos (IZR i * flat_ang N d), sin (IZR i * flat_ang N d), 0)%R) /\
+  (let X := flat_ring_coords Rops N d k in
+   nth 0 X (1, 1, 1)%R = (0, 0, 0)%R /\
+   (forall f, In f (flat_ring_faces N k) -> exists i, 0 <= i < N * k /\ f = [0; i + 1; i + 2] /\
+      let p := nth (Z.to_nat (i + 1)) X (0, 0, 0)%R in let q := nth (Z.to_nat (i + 2)) X (0, 0, 0)%R in
+      on_unit_circle p /\ on_unit_circle q /\
+      (vx p * vx q + vy p * vy q = cos (flat_ang N d))%R /\ (vx p * vy q - vy p * vx q = sin (flat_ang N d))%R) /\
+   (IZR N * flat_ang N d = 2 * PI - flat_defect d)%R /\ (0 < flat_ang N d <= 2 * PI / IZR N)%R) /\
+  (0 <= flat_defect d <= 2 * PI - 1 / 100)%R /\ ((0 <= d < 2 * PI - 1 / 100)%R -> flat_defect d = d).
+Proof.
+  intros N d k H. acc. split; [|split; [|split]].
+  - intros i Hi. apply flat_ring_closed_form. exact Hi.
+  - apply flat_ring_apex_angle. lia.
+  - apply flat_defect_range.
+  - apply flat_defect_id.
+Qed.
+
+(* sphere_uv: n_lat honoured - the vertices are the two poles and n_lat rings of n_long points; ring i is at height
+   center.z + radius * cos(pi (i+1)/(n_lat+1)); these n_lat heights are pairwise distinct and strictly between the poles *)
+Lemma sphere_latitudes : forall n L (center : vec R) (radius : R), sphere_uv_rejects n L = false ->
+  sphere_uv_coords Rops n L center radius =
+    vadd Rops center (vscale Rops radius (0, 0, 1)%R) ::
+    flat_map (fun i => map (sph_pt n L center radius i) (zrange L)) (zrange n) ++
+    [vadd Rops center (vscale Rops radius (0, 0, -1)%R)] /\
+  (forall i j, vz (sph_pt n L center radius i j) = (vz center + radius * cos (sph_phi n i))%R) /\
+  (forall i, 0 <= i < n -> (-1 < cos (sph_phi n i) < 1)%R) /\
+  (forall i i', 0 <= i < i' -> i' < n -> (cos (sph_phi n i') < cos (sph_phi n i))%R).
+Proof.
+  intros n L center radius H. acc. split; [apply sphere_uv_rows|]. split; [intros; apply sph_pt_z|].
+  apply sphere_uv_latitudes. lia.
+Qed.
+
+(* ring: with the apex on the axis at height h, every triangle (0, a, b) has |p - apex|^2 = |q - apex|^2 = 1 + h^2 and
+   (p - apex).(q - apex) = cos(2 pi/N) + h^2: all apex angles equal the one the bisection measures on vertices 1, 2 *)
+Lemma ring_congruent : forall N (d : R) o k (h : R), ring_rejects N o k = false ->
+  let X := ring_coords Rops N d o k (0, 0, h)%R in
+  nth 0 X (1, 1, 1)%R = (0, 0, h)%R /\
+  forall f, In f (ring_faces N o k) -> exists a b, f = [0; a; b] /\
+    apex_congruent N h (nth (Z.to_nat a) X (0, 0, 0)%R) (nth (Z.to_nat b) X (0, 0, 0)%R).
+Proof. intros N d o k h H. acc. apply ring_apex_symmetric; lia. Qed.
+
+(* ring, bisection with the GEOMETRIC angle acos((A-P).(B-P)/(|A-P||B-P|)) measured, as the code does, on vertices 1 and 2 of the
+   ring: monotonicity of the defect in the apex height and defect 0 for the flat ring are PROVED (two of the three hypotheses of
+   ring_apex); only "no early stop while the bracket is enlarged" remains a hypothesis *)
+Lemma ring_apex_geo : forall (N : Z) (d0 : R) (o : bool) (k : Z) (apex : vec R), ring_rejects N o k = false ->
+  let X := ring_coords Rops N d0 o k apex in
+  let A := nth 1 X (0, 0, 0)%R in let B := nth 2 X (0, 0, 0)%R in let d := ring_defect_clamp Rops d0 in
+  (A = (1, 0, 0)%R /\ B = ring_pt N 1) /\
+  ((forall a b, (0 <= a <= b)%R -> (g geo_angle A B N a <= g geo_angle A B N b)%R) /\ g geo_angle A B N 0 = 0%R) /\
+  ((forall h1 h2, (h1 = 0 /\ h2 = 10)%R \/ (10 <= h1 /\ h2 = 2 * h1)%R -> (g geo_angle A B N h2 < d)%R ->
+      (eps <= Rabs (g geo_angle A B N h1 - g geo_angle A B N h2))%R) ->
+   forall fuel s, do_while (step geo_angle A B N d) fuel (ring_bisect_init Rops) = Some s ->
+   exists h, ring_bisect_apex Rops (fst s) (snd s) = (0, 0, h)%R /\ (Rabs (g geo_angle A B N h - d) < eps)%R).
+Proof.
+  intros N d0 o k apex H X A B d. acc.
+  assert (HA : A = (1, 0, 0)%R).
+  { subst A X. rewrite <- ring_pt_0 with (N := N). apply (ring_vertex N d0 o k apex 0). nia. }
+  assert (HB : B = ring_pt N 1). { subst B X. apply (ring_vertex N d0 o k apex 1). nia. }
+  split; [split; assumption|]. rewrite HA, HB.
+  destruct (ring_geo_hypotheses N ltac:(lia)) as [Hgm Hgz]. split; [split; [exact Hgm | exact Hgz]|].
+  intros Hexp fuel s Hs. apply (ring_apex geo_angle (1, 0, 0)%R (ring_pt N 1) N d) with (fuel := fuel); auto.
+  unfold g. unfold g in Hgz. rewrite Hgz. apply (ring_clamp_range d0).
+Qed.
+
+(* the helpers of mouette/geometry/rotations.py, GENERATED from their source: rotate_2d turns by the angle; rotate_around_axis
+   (with its early return for a tiny angle or axis) keeps a unit vector orthogonal to the unit axis a unit vector orthogonal to it *)
+Lemma rotation_helpers :
+  (forall a b z : R, geom_rotate_2d Rops (cos a, sin a, z) b = (cos (a + b), sin (a + b), 0)%R) /\
+  (forall (t a : vec R) (ang : R), dot3 a a = 1%R -> dot3 t t = 1%R -> dot3 a t = 0%R ->
+     let q := geom_rotate_around_axis Rops t a ang in dot3 q q = 1%R /\ dot3 q a = 0%R).
+Proof. split; [exact rot2d_spec | exact rotate_unit_orth]. Qed.
+
 (* ---------------------------------------------------------------- non-vacuity: concrete instances *)
 Example ex_grid : unit_grid_faces 2 3 false false = [[0; 1; 4; 3]; [1; 2; 5; 4]] /\ unit_grid_nverts 2 3 false false = 6
   /\ grid_border_cycle 2 3 = [0; 1; 2; 5; 4; 3].
@@ -369,3 +459,22 @@ Example ex_ring : ring_faces 3 false 1 = [[0; 1; 2]; [0; 2; 3]; [0; 3; 1]] /\ ri
 Proof. vm_compute. auto. Qed.
 Example ex_sphere_coord : In (0, 0, 1)%R (sphere_uv_coords Rops 1 3 (0, 0, 0)%R 1%R).
 Proof. unfold sphere_uv_coords. left. unfold vadd, vscale, vx, vy, vz. cbn. f_equal; [f_equal|]; ring. Qed.
+
+(* round 7: the hypotheses of the new theorems are met by concrete non-trivial instances *)
+Example ex_tri_counts : unit_triangle_rejects 3 5 false = false /\ zlen (unit_triangle_faces 3 5 false) = 2 * roff 3 5 - 2 * (5 - 1) - (Z.min 5 3 - 1) - 2
+  /\ unit_triangle_rejects 4 4 true = false /\ zlen (unit_triangle_faces 4 4 true) = (4 - 1) * (4 - 1).
+Proof. vm_compute. auto. Qed.
+Example ex_flat_ring : flat_ring_rejects 5 2 = false /\ In [0; 3; 4] (flat_ring_faces 5 2) /\ zlen (flat_ring_faces 5 2) = 10.
+Proof. vm_compute. auto 10. Qed.
+Example ex_sphere_lat : sphere_uv_rejects 3 4 = false /\ (cos (sph_phi 3 2) < cos (sph_phi 3 0))%R.
+Proof. split; [reflexivity|]. apply (proj2 (sphere_uv_latitudes 3 ltac:(lia))); lia. Qed.
+Example ex_rotation : geom_rotate_around_axis Rops (1, 0, 0)%R (0, 0, 1)%R 0%R = (1, 0, 0)%R.
+Proof.
+  unfold geom_rotate_around_axis. cbv zeta. unfold oabs_lt. cbn [oltb oopp odiv oofZ Rops].
+  destruct (Rlt_dec 0 (1 / 1000000000000)) as [_|n]; [|exfalso; apply n; lra].
+  destruct (Rlt_dec (- (1 / 1000000000000)) 0) as [_|n]; [|exfalso; apply n; lra]. reflexivity.
+Qed.
+Example ex_ring_congruent : ring_rejects 5 true 2 = false /\ In [0; 10; 11] (ring_faces 5 true 2) /\ In [0; 10; 1] (ring_faces 5 false 2).
+Proof. vm_compute. auto 20. Qed.
+Example ex_ring_geo : ring_rejects 3 false 1 = false /\ (g geo_angle (1, 0, 0)%R (ring_pt 3 1) 3 0 = 0)%R.
+Proof. split; [reflexivity|]. apply (proj2 (ring_geo_hypotheses 3 ltac:(lia))). Qed.
